@@ -427,9 +427,8 @@ def check(ctx):
         raise AnalysisError('create_type_from_ctype_string signature changed: %s' % pn)
     cparam = pn[1]
     seen = set()
-    for g, n in CS.returns:
-        if not isinstance(n, ast.Call):
-            continue
+    for g, n0 in CS.returns:
+      for n in ([x for x in ast.walk(n0) if isinstance(x, ast.Call)] if n0 is not None else []):
         nm = P.call_name(n)
         if nm in ('ast.Type', 'ast.Array', 'self._create_bare_container_type') and gsa._unparse(n) not in seen:
             seen.add(gsa._unparse(n))
